@@ -489,6 +489,8 @@ def encode_variant(k, mtype, serial, fields, body_sig='', body=(), little=True, 
 
 def decode_message(raw, strict=True):
     """Strict decoder for one complete message.  Returns a dict."""
+    if not isinstance(raw, (bytes, bytearray)):
+        raise RefError('not a byte string: %r' % (raw,))      # e.g. a message object whose rawMessage was never set
     if len(raw) < 16:
         raise RefError('short message')
     if raw[0] == ord('l'):
